@@ -28,6 +28,9 @@ CLAIMS = {
     "C07": ("complete enumeration (exhaustive: true) of every tabulated rule x every monomial up to its documented degree against exact rational integrals (points inside, total weight, exactness; measured degree reported), of every (element type, matrix type) pair of the factory, plus seeded straight-sided meshes incl. general quads/hexas for measure, centroid, per-element measures and low-degree moments, and 1-4 element patches for the rank of the stiffness rule",
             "documented degrees transcribed from the docstrings at the pinned commit; tolerance 1e-12 relative to the reference measure",
             "reference-model oracle (exact rational monomial integrals, analytic polygon moments) on the real Gauss / Integrate_e callables"),
+    "C08": ("analytic measure / centroid of generated polygons and extrusions before and after Translate / Rotate / Symmetry applied to the mesh object (generic angles, repeated), observer notification, connectivity unchanged; boundary normals: unit length, closure, flux of the position vector and per-face-class outwardness against the adjacent volume element, as meshed / mirrored / mirrored twice and rotated; embedded surfaces; point location singly and in batches (several points per element, batch size == dim, edge and node points) against polynomial nodal fields on simplices, affine images and general quads/hexas; Calc_projector on linear fields",
+            "polynomial degree limited to what the element space contains on its geometry; general quads/hexas judged at 1e-6 (scipy least_squares default tolerance inside the inverse map)",
+            "reference-model oracle (analytic geometry, polynomial fields) + pre/post invariant monitor on the mesh motions"),
 }
 
 
